@@ -1,3 +1,4 @@
 import SR.Drv.C10
 import SR.Drv.C20
-def main : IO Unit := SR.Drv.runMain [SR.Drv.C10.handle, SR.Drv.C20.handle]
+import SR.Drv.Chk
+def main : IO Unit := SR.Drv.runMain [SR.Drv.C10.handle, SR.Drv.C20.handle, SR.Drv.Chk.handle]
